@@ -56,11 +56,13 @@ func (f *File) IsDir() bool {
 	return false
 }
 
-// getData return file data bytes
+// getData return a copy of file data bytes
 func (f *File) getData() []byte {
 	f.dataMU.RLock()
 	defer f.dataMU.RUnlock()
-	return f.data
+	data := make([]byte, len(f.data))
+	copy(data, f.data)
+	return data
 }
 
 // setData set new file data bytes
